@@ -4,6 +4,7 @@ import (
 	"fmt"
 	"sort"
 	"strings"
+	"time"
 )
 
 func expectedOut(ws []wEntry) []byte {
@@ -221,6 +222,10 @@ func (w *World) finalOracles() {
 		}
 		w.violate("C19", key, "%s was accepted without error but its result channel never delivered anything (Run returned: %v)", l, w.runDone)
 		break
+	}
+	// a Stop with a context that never ends must come back once the engine is down
+	if w.stopCallsPending > 0 && w.runDone && w.postRounds > 2 {
+		w.violate("C19", "stop-never-returns", "Run has returned (simulated seconds ago: %.1f) but %d Stop call(s) with a context that has not ended are still waiting", time.Since(w.runDoneAt).Seconds(), w.stopCallsPending)
 	}
 	// descriptors handed to the application stay open and untouched
 	for _, fd := range w.userFds {
